@@ -78,6 +78,28 @@ def handleFn (args : List String) : String :=
       s!"P {" ".intercalate (ps.map encP)}#F {" ".intercalate (ds.map encD)}#ok={if ok then 1 else 0}#names={nameCount t its}"
   | _ => "bad-args"
 
+/-- `ov <this> <items> <uP> <uN> <declared>`: uP = `-` or c.n.ptr joined by `/` (the user's C_prototype, classified; `~` = empty),
+    uN = `-` or name ids joined by `.`, declared = name ids the generated declarations declare, joined by `.`
+    -> P <final C classes>#F <dummies>#N <final dummy names>#ok=<overrideOK && all items OK> -/
+def handleOverride (args : List String) : String :=
+  match args with
+  | [this, items, uP, uN, declared] =>
+    let its := if items == "~" then some [] else allSome ((items.splitOn ";").map decItem)
+    let up : Option (Option (List ParamC)) :=
+      if uP == "-" then some none else if uP == "~" then some (some []) else
+        (allSome ((uP.splitOn "/").map (fun t => match nats t "." with
+          | [a, b, c] => decC (a, b, c)
+          | _ => none))).map some
+    match its, up with
+    | some its, some up =>
+      let t := this == "1"
+      let un : Option (List Nat) := if uN == "-" then none else some (nats uN ".")
+      let decl := nats declared "."
+      let ok := its.all itemOK && overrideOK up un t its decl
+      s!"P {" ".intercalate ((protoFinal up t its).map encP)}#F {" ".intercalate ((ifaceList t its).map encD)}#N {".".intercalate ((namesFinal un decl).map toString)}#ok={if ok then 1 else 0}"
+    | _, _ => "bad-item"
+  | _ => "bad-args"
+
 /-- `io <c.n.ptr> <c.n.v.s>`: the model's interoperability table for one pair -/
 def handleInterop (args : List String) : String :=
   match args with
